@@ -70,14 +70,15 @@ FanoutT == HasSpatial =>
   \A f \in {W.fanout[k] : k \in 1..Len(W.fanout)} : ProdIters(SpatialLoops(f.comp, f.dim)) <= f.n
 Cmp(op, a, b) == CASE op = "==" -> a = b [] op = "<=" -> a <= b [] op = ">=" -> a >= b
                    [] op = "<" -> a < b [] op = ">" -> a > b
-\* a constraint speaks about the spatial loops of its dimension over the rank variables it names; it is
-\* decided on the loops that exist (a rank variable without such a loop is not judged: the documentation
-\* leaves open whether an absent loop counts as a bound of 1)
+\* a constraint speaks about the spatial loops of its dimension over the rank variables it names.  The mapper's
+\* templates carry one spatial loop per rank variable and dimension and the returned tree omits loops with one
+\* iteration, so a rank variable without such a loop has bound 1 (ProdIters({}) = 1) and is judged as such.
 LbOK(c) ==
-  LET L == {j \in SpatialLoops(c.comp, c.dim) : \E k \in 1..Len(c.vars) : c.vars[k] = nodes[j].rv}
+  LET Lv(v) == {j \in SpatialLoops(c.comp, c.dim) : nodes[j].rv = v}
+      L == UNION {Lv(c.vars[k]) : k \in 1..Len(c.vars)}
   IN IF c.product
-     THEN L = {} \/ Cmp(c.op, ProdIters(L), c.value)
-     ELSE \A j \in L : Cmp(c.op, Iters(W, nodes, j), c.value)
+     THEN Cmp(c.op, ProdIters(L), c.value)
+     ELSE \A k \in 1..Len(c.vars) : Cmp(c.op, ProdIters(Lv(c.vars[k])), c.value)
 BoundsT == ("lbs" \in DOMAIN W) => \A k \in 1..Len(W.lbs) : LbOK(W.lbs[k])
 
 ReqEq(a, b) == a[1] * b[2] = b[1] * a[2]
